@@ -70,6 +70,18 @@ theorem Keeps.tryCatch {I : HSt → Prop} {m : HM α} {h : Exc → Option (HM α
 /-- reading the state does not change it -/
 theorem Keeps.read {I : HSt → Prop} (g : HSt → Except Exc α) : Keeps I (fun s => (g s, s) : HM α) := ⟨fun _ h => h⟩
 
+/-- a lifted pure look-up: the state is untouched, and the continuation may assume what the look-up returned -/
+theorem Keeps.liftE {I : HSt → Prop} (x : Except Exc α) : Keeps I (Impl.liftE x) := ⟨fun _ h => h⟩
+
+theorem Keeps.bind_liftE {I : HSt → Prop} {x : Except Exc α} {f : α → HM β} (hf : ∀ a, x = .ok a → Keeps I (f a)) :
+    Keeps I (Impl.liftE x >>= f) := by
+  constructor
+  intro s h
+  rw [HM.bind_def]
+  cases x with
+  | ok a => exact (hf a rfl).keep s h
+  | error e => exact h
+
 /-! ## the fields no handler or generator ever assigns
 
   `peer_msg_id`, `last_sent_response_data`, the retransmission bookkeeping, `pending_events`, the liveness and hard
@@ -89,6 +101,8 @@ macro "keeps_c" : tactic => `(tactic| repeat' (first
   | exact Keeps.pure _
   | exact Keeps.raise _
   | exact Keeps.read _
+  | exact Keeps.liftE _
+  | (apply Keeps.bind_liftE; intro _ _)
   | (simp only [keepsConst]; done)
   | apply Keeps.bind
   | intro _
@@ -109,13 +123,7 @@ variable (c : SaCore)
 @[keepsConst] theorem popNum_c : Keeps (ConstI c) popNum := by unfold popNum; keeps_c
 @[keepsConst] theorem popAuthGen_c : Keeps (ConstI c) popAuthGen := by unfold popAuthGen; keeps_c
 @[keepsConst] theorem popAuthVerify_c : Keeps (ConstI c) popAuthVerify := by unfold popAuthVerify; keeps_c
-@[keepsConst] theorem getPayload_c (m pt e) : Keeps (ConstI c) (getPayload m pt e) := by unfold getPayload; keeps_c
-@[keepsConst] theorem illTyped_c {α} : Keeps (ConstI c) (illTyped : HM α) := by unfold illTyped; keeps_c
-@[keepsConst] theorem saOf_c (p) : Keeps (ConstI c) (saOf p) := by unfold saOf; keeps_c
-@[keepsConst] theorem keOf_c (p) : Keeps (ConstI c) (keOf p) := by unfold keOf; keeps_c
-@[keepsConst] theorem nonceOf_c (p) : Keeps (ConstI c) (nonceOf p) := by unfold nonceOf; keeps_c
-@[keepsConst] theorem tsBodyOf_c (p) : Keeps (ConstI c) (tsBodyOf p) := by unfold tsBodyOf; keeps_c
-@[keepsConst] theorem idOf_c (p) : Keeps (ConstI c) (idOf p) := by unfold idOf; keeps_c
+@[keepsConst] theorem getPayload_c (m pt e) : Keeps (ConstI c) (getPayload m pt e) := Keeps.liftE _
 @[keepsConst] theorem abortOnErrorNotifies_c (m e i) : Keeps (ConstI c) (abortOnErrorNotifies m e i) := by
   unfold abortOnErrorNotifies; keeps_c
 @[keepsConst] theorem getMe_c : Keeps (ConstI c) getMe := by unfold getMe; keeps_c
@@ -147,6 +155,8 @@ macro "keeps_c2" : tactic => `(tactic| repeat' (first
   | exact Keeps.pure _
   | exact Keeps.raise _
   | exact Keeps.read _
+  | exact Keeps.liftE _
+  | (apply Keeps.bind_liftE; intro _ _)
   | exact KeepsOpt.none
   | apply KeepsOpt.some
   | (simp only [keepsConst]; done)
